@@ -236,8 +236,13 @@ def _dec_term(e):
 
 
 def length_scanner(F):
-    """varint_length_packed: index of the first byte whose flag bit is clear, plus one"""
+    """varint_length_packed: index of the first byte whose flag bit is clear, plus one.
+    Two idioms are recognised: the explicit counting loop and `data.iter().position(|b| b & FLAG == 0)`;
+    both are normalised to the same description."""
     b = F.body(A("varint_length"))
+    pos = calls(b, "Iterator::position")
+    if pos and not b.loops():
+        return _scanner_position_idiom(F, b, pos)
     out = {"loops": len(b.loops())}
     flag = None
     for site, st in b.sites():
@@ -277,6 +282,42 @@ def length_scanner(F):
             kinds.append("counter+1" if (c and c[0] == "Add" and fold(c[2]) == 1) else "?" + a.show()[:40])
     out["returns"] = sorted(kinds)
     # the zero return is guarded by counter == len(data)
+    return out
+
+
+def _scanner_position_idiom(F, b, pos):
+    out = {"loops": 1, "flag_test": None, "counter_incremented_by_one_in_loop": False, "returns": []}
+    if len(pos) != 1:
+        return out
+    a = b.arg_exprs(pos[0][0])
+    it = a[0]
+    names = [x.x["path"].rsplit("::", 1)[-1] for x in it.walk() if x.k == "call"]
+    over_data = any(is_arg(x, "data") for x in it.walk()) and set(names) <= {"iter", "into_iter", "deref"}
+    clo = a[1].strip()
+    cb = F.by_path.get(clo.x.get("closure"), []) if clo.k == "agg" else []
+    if len(cb) == 1 and over_data:
+        r = cb[0].expr_at_return()
+        lhs = r.a[0].strip() if r.k == "bin" else None
+        is_and = lhs is not None and ((lhs.k == "bin" and lhs.x["op"] == "BitAnd") or (lhs.k == "call" and lhs.x["path"].endswith("::bitand")))
+        if r.k == "bin" and r.x["op"] == "Eq" and fold(r.a[1]) == 0 and is_and:
+            l, rr = lhs.a
+            m = fold(rr) if fold(rr) is not None else fold(l)
+            byte = l if fold(rr) is not None else rr
+            if byte.strip().k == "arg":
+                # position() visits elements in order, counts from 0, stops at the first true
+                out["flag_test"] = {"mask": m, "index_is_counter": True, "breaks_when_clear": True, "in_loop": True}
+                out["counter_incremented_by_one_in_loop"] = True
+    rets = b.expr_at_return()
+    alts = rets.a if rets.k == "phi" else [rets]
+    kinds = []
+    for x in alts:
+        if fold(x) == 0:
+            kinds.append("zero")
+        else:
+            c = checked(x)
+            pay = unwrap_payload(strip_casts(c[1]), "Some") if (c and c[0] == "Add" and fold(c[2]) == 1) else None
+            kinds.append("counter+1" if (pay is not None and pay.strip().x.get("site") == pos[0][0]) else "?" + x.show()[:40])
+    out["returns"] = sorted(kinds)
     return out
 
 
